@@ -8,3 +8,60 @@ Definition bad_case : list Z := [-2].
 Definition panic_obs : list Z := [-1].
 
 Definition Zbool (b : bool) : Z := if b then 1 else 0.
+
+(* ---- frames:  n ; (id ; len ; bytes...)* ---- *)
+Require Import GV.Model.J1939 GV.Model.Hcu.
+
+Definition enc_frame (f : frame) : list Z := f_id f :: Z.of_nat (length (f_data f)) :: f_data f.
+Definition enc_frames (fs : list frame) : list Z := Z.of_nat (length fs) :: flat_map enc_frame fs.
+
+Fixpoint dec_frames_n (n : nat) (l : list Z) : option (list frame * list Z) :=
+  match n with
+  | O => Some ([], l)
+  | S n' =>
+      match l with
+      | id :: len :: t =>
+          if (len <? 0) || (Z.of_nat (length t) <? len) then None else
+          let k := Z.to_nat len in
+          match dec_frames_n n' (skipn k t) with
+          | Some (fs, rest) => Some ({| f_id := id; f_data := firstn k t |} :: fs, rest)
+          | None => None
+          end
+      | _ => None
+      end
+  end.
+Definition dec_frames (l : list Z) : option (list frame * list Z) :=
+  match l with
+  | n :: t => if (n <? 0) || (Z.of_nat (length t) <? n) then None else dec_frames_n (Z.to_nat n) t
+  | [] => None
+  end.
+
+(* ---- motions: 0 | 1 | 2 | 5 v | 16 n (a v)* ---- *)
+Definition enc_motion (m : motion) : list Z :=
+  match m with
+  | StopAll => [0] | ResumeAll => [1] | ResetAll => [2]
+  | StraightDrive v => [5; v]
+  | Change cs => 16 :: Z.of_nat (length cs) :: flat_map (fun e => [fst e; snd e]) cs
+  end.
+Fixpoint dec_pairs (n : nat) (l : list Z) : option (list (Z * Z) * list Z) :=
+  match n with
+  | O => Some ([], l)
+  | S n' => match l with
+            | a :: v :: t => match dec_pairs n' t with
+                             | Some (cs, rest) => Some ((a, v) :: cs, rest)
+                             | None => None end
+            | _ => None end
+  end.
+Definition dec_motion (l : list Z) : option (motion * list Z) :=
+  match l with
+  | 0 :: t => Some (StopAll, t)
+  | 1 :: t => Some (ResumeAll, t)
+  | 2 :: t => Some (ResetAll, t)
+  | 5 :: v :: t => Some (StraightDrive v, t)
+  | 16 :: n :: t =>
+      if (n <? 0) || (Z.of_nat (length t) <? 2 * n) then None else
+      match dec_pairs (Z.to_nat n) t with
+      | Some (cs, rest) => Some (Change cs, rest)
+      | None => None end
+  | _ => None
+  end.
